@@ -252,6 +252,31 @@ def run(chk, tier, seed, replay):
                 break
     chk.cov["traces_validated_against_impl"] += len(reqs)
     chk.cov["distinct_nontrivial"] += nontriv
+    # GroupInvariant: an item whose field types arrive as invisible groups (`$t:ty` fragments of a macro_rules! macro)
+    # gets the same impls - headers, where-clauses, bodies - as the item written out by hand
+    if not replay:
+        greqs = []
+        for gi, (fam, decl_text) in enumerate(GENERIC_ITEMS):
+            for derives, item in split_items(decl_text):
+                for d in derives:
+                    greqs.append({"key": f"g{gi}|{d}|plain", "derive": d, "item": item, "tokens": True})
+                    greqs.append({"key": f"g{gi}|{d}|group", "derive": d, "item": item, "tokens": True, "group_types": True})
+        gobs = vlib.run_inproc("expand", greqs)
+        for rq in greqs[::2]:
+            a, b = gobs[rq["key"]], gobs[rq["key"].replace("|plain", "|group")]
+            chk.cov["evaluations"] += 1
+            # (as a multiset of impls: tables keyed by a field's type may iterate in another order)
+            def impls_of(o):
+                if o["outcome"] != "ok":
+                    return o["outcome"] + ":" + str(o.get("msg"))[:120]
+                return sorted(json.dumps([im["trait"], im["self_ty"], sorted(im["where"]), sorted(im["params"]),
+                                          [[f["name"], f["sig"], f["body"]] for f in im["fns"]]], sort_keys=True) for im in o["impls"])
+            ta, tb = impls_of(a), impls_of(b)
+            if ta != tb:
+                chk.deviation(rq["key"].replace("|plain", "|GroupInvariant"), "the expansion differs when the field types arrive as invisible groups "
+                              f"(macro fragments): {str(tb)[:200]}", case={"derive": rq["derive"], "item": rq["item"]}, expected=str(ta)[:400],
+                              observed=str(tb)[:400], tags={"kind": "header_GroupInvariant", "derive": rq["derive"]})
+        chk.cov["traces_validated_against_impl"] += len(greqs)
     if replay and not reqs:
         pass
     # ---------------------------------------------------------------- (b) rustc, deny(warnings)
